@@ -337,6 +337,16 @@ fn exec(op: &Op, l: &mut Local, t: &Arc<Tables>) -> Result<ObsVal, String> {
             put_span(t, *slot, Span::noop())?;
             Ok(ObsVal::Unit)
         }
+        Op::RootFromSpan { slot, name, of, w3c } => {
+            let src = get_span(t, *of)?;
+            let ctx = SpanContext::from_span(&src);
+            drop(src);
+            root_from_ctx(t, *slot, name, ctx, *w3c)
+        }
+        Op::RootFromLocal { slot, name, w3c } => {
+            let ctx = SpanContext::current_local_parent();
+            root_from_ctx(t, *slot, name, ctx, *w3c)
+        }
         Op::AddProps { slot, props } => {
             let s = get_span(t, *slot)?;
             s.add_properties(counted!(props));
@@ -646,6 +656,23 @@ fn exec(op: &Op, l: &mut Local, t: &Arc<Tables>) -> Result<ObsVal, String> {
     }
 }
 
+fn root_from_ctx(t: &Tables, slot: u32, name: &str, ctx: Option<SpanContext>, w3c: bool) -> Result<ObsVal, String> {
+    let obs = ctx_of(ctx);
+    let span = match ctx {
+        None => Span::noop(),
+        Some(c) => {
+            let c = if w3c {
+                SpanContext::decode_w3c_traceparent(&c.encode_w3c_traceparent()).ok_or("traceparent round trip failed")?
+            } else {
+                c
+            };
+            Span::root(name.to_string(), c)
+        }
+    };
+    put_span(t, slot, span)?;
+    Ok(ObsVal::Ctx(obs))
+}
+
 /// Runs `inner` operations from inside the property closure of `outer`.
 fn exec_reentrant(outer: &Op, inner: &[Op], l: &mut Local, t: &Arc<Tables>) -> Result<ObsVal, String> {
     // The closure needs `l` mutably while the outer call is in progress; the outer call itself only
@@ -792,6 +819,9 @@ pub fn actor_main(id: usize, actor: Actor, t: Arc<Tables>) {
         w.actors[id].pc = n;
         w.push_log(Some(id), Ev::OpBegin { op: n });
     }
+    let rel_unix_begin = unix_now_ns();
+    let rel_mono_begin = t0.elapsed().as_nanos() as u64;
+    let rel_seq = s.world().seq;
     let r = catch_unwind(AssertUnwindSafe(|| {
         while let Some(g) = l.fill_guards.pop() {
             drop(g);
@@ -800,19 +830,22 @@ pub fn actor_main(id: usize, actor: Actor, t: Arc<Tables>) {
             drop(g);
         }
     }));
-    if let Err(e) = r {
+    {
         let seq = s.world().seq;
         lock(&t.obs).push(Obs {
             actor: id,
             op: actor.ops.len(),
             label: String::new(),
-            seq_begin: seq,
+            seq_begin: rel_seq,
             seq_end: seq,
-            unix_begin_ns: 0,
-            unix_end_ns: 0,
-            mono_begin_ns: 0,
-            mono_end_ns: 0,
-            val: ObsVal::Panic(panic_msg(e)),
+            unix_begin_ns: rel_unix_begin,
+            unix_end_ns: unix_now_ns(),
+            mono_begin_ns: rel_mono_begin,
+            mono_end_ns: t0.elapsed().as_nanos() as u64,
+            val: match r {
+                Err(e) => ObsVal::Panic(panic_msg(e)),
+                Ok(()) => ObsVal::Unit,
+            },
             closures: 0,
         });
     }
